@@ -135,15 +135,16 @@ def run(ctx):
             spec.ORIENTS):
         ctx.instance(R)
         se = Abs(E, label="edge", sid1=ol("a", o1), sid2=ol("b", o2))
+        # coordinates that have the wanted types on a segment of length 7
+        # (for a function that computes the interval types inside, or
+        # consults something derived from the coordinates)
+        coords = {"pfx": (0, 3), "sfx": (3, last7), "whole": (0, last7),
+                  "internal": (3, 5)}
+        se.attrs.update(beg1=coords[st1][0], end1=coords[st1][1],
+                        beg2=coords[st2][0], end2=coords[st2][1])
         if len(f_rk.params) == 4:
             out = eval_function(repo, f_rk, [se, snum, st1, st2], hooks=hooks)
         elif len(f_rk.params) == 2:
-            # the interval types are computed inside: give coordinates that
-            # have the wanted types on a segment of length 7
-            coords = {"pfx": (0, 3), "sfx": (3, last7), "whole": (0, last7),
-                      "internal": (3, 5)}
-            se.attrs.update(beg1=coords[st1][0], end1=coords[st1][1],
-                            beg2=coords[st2][0], end2=coords[st2][1])
             out = eval_function(repo, f_rk, [se, snum], hooks=hooks)
         else:
             raise AnalysisError("anchor vanished: _refkey_for_s(snum[, st1, "
